@@ -12,6 +12,8 @@ from collections import Counter
 from . import env
 
 MAX_CASES_PER_SIG = 3
+# scratch runs (mutant evaluation) redirect evidence and replays
+OUT = os.environ.get('VQ_OUT') or env.VERIF
 NCPU = int(os.environ.get('VQ_JOBS', '16'))
 
 
@@ -134,7 +136,7 @@ def load_known():
 
 
 def write_replay(prop, sig, entry):
-    d = os.path.join(env.VERIF, 'replays', prop)
+    d = os.path.join(OUT, 'replays', prop)
     os.makedirs(d, exist_ok=True)
     body = {'property': prop, 'signature': sig, 'message': entry['msg'],
             'case': entry['case']}
@@ -218,7 +220,7 @@ def finish(prop, tier, seed, st, t0, rule, level_text, assumptions=(),
         'wall_s': round(time.time() - t0, 3),
         'violations': len(new_viol),
     }
-    d = os.path.join(env.VERIF, 'evidence')
+    d = os.path.join(OUT, 'evidence')
     os.makedirs(d, exist_ok=True)
     tmp = os.path.join(d, f'.{prop}.json.tmp')
     with open(tmp, 'w') as f:
